@@ -128,6 +128,16 @@ class ConcreteNet:
         return all(self.const_on(v, M[v], M) for v in range(self.n)
                    if M[v] is not None and base[v] is None and (V is None or v in V))
 
+    def rtrap(self, M):
+        for x in self.states:
+            if in_space(x, M):
+                for v in range(self.n):
+                    if M[v] is not None:
+                        y = flip(x, v)
+                        if self.fval(v, y) != bool(y[v]):
+                            return False
+        return True
+
     def is_source(self, v, S):
         return all(self.fval(v, x) == bool(x[v]) for x in self.states if in_space(x, S))
 
@@ -170,7 +180,14 @@ class ConcreteNet:
             out.append(M)
         return out
 
-    def trappist_spec(self, problem, base, V=None, ensure=None, srcs=(), avoid=()):
+    def trappist_spec(self, problem, base, V=None, ensure=None, srcs=(), avoid=(), reverse=False):
+        if reverse:
+            saved = self.trap_rel
+            self.trap_rel = lambda M, base_, V_=None: self.rtrap(M)
+            try:
+                return self.trappist_spec(problem, base, V, ensure, srcs, avoid, reverse=False)
+            finally:
+                self.trap_rel = saved
         netvars = [v for v in range(self.n) if base[v] is None and (V is None or v in V)]
         if problem == "max":
             ens = ensure or (None,) * self.n
